@@ -1,6 +1,7 @@
 import MalVerif.Py.TieWrapperEnv
 import MalVerif.Py.TieWrapperGen
 import MalVerif.Py.TieWrapperRoundTrip
+import MalVerif.Py.TieWrapperPipe
 import MalVerif.PropsGen.C07
 /-!
 # C16 for the *translated* pipeline `create_attack_graph` (wrappers.py, regenerated on every run)
@@ -127,6 +128,55 @@ theorem same_document_in_any_store {w : WEnv} {lf mf : String} {lg : Py.LType.TH
     ⟨ids_nodup r.modelOK, hn, he, (Py.Tie.resetG_reset _).fresh⟩
     ⟨ids_nodup r.modelOK, hn, he, (Py.Tie.resetG_reset _).fresh⟩
     (Py.Tie.resetG_reset _) (Py.Tie.resetG_reset _) fuel
+
+/-- **(ii-b′) the same for the whole pipeline, any flags**: with attachment and / or analysis requested, the two runs
+— one in the node store `s1`, one in `s2` — either raise the same exception or both return, and then `_to_dict` of the
+two graphs is the same document for every unrolling budget (attacker ids, entry points, reached steps, viability and
+necessity labels included): `attach_attackers` and `calculate_viability_and_necessity` commute with the renaming of
+references (`attach_sim`, `calculate_sim`). -/
+theorem same_document_in_any_store_all_stages {w : WEnv} {lf mf : String} {lg : Py.LType.TH} {m : PyM.H}
+    (r : Run w lf mf lg m) (ns : List GNode) (es : List (Nat × Nat))
+    (hg : genGraph (langOf lg) (instOf m) = .ok (ns, es)) (s1 s2 : Py.H) (attach ana : Bool) :
+    ∃ F, ∀ k, F ≤ k →
+      match create_attack_graph (withFuel (inStore w s1) k) lf mf attach ana,
+            create_attack_graph (withFuel (inStore w s2) k) lf mf attach ana with
+      | .ok g1, .ok g2 => ∀ fuel, Py.Gen.graph__to_dict fuel g1.h = Py.Gen.graph__to_dict fuel g2.h
+      | .error e1, .error e2 => e1 = e2
+      | _, _ => False := by
+  have r1 : Run (inStore w s1) lf mf lg m := ⟨⟨r.quiet.lang, r.quiet.model⟩, r.lang, r.model, r.eqid, r.langOK, r.modelOK⟩
+  have r2 : Run (inStore w s2) lf mf lg m := ⟨⟨r.quiet.lang, r.quiet.model⟩, r.lang, r.model, r.eqid, r.langOK, r.modelOK⟩
+  obtain ⟨F1, hF1⟩ := wrapper_generates_model_graph r1 ns es hg attach ana
+  obtain ⟨F2, hF2⟩ := wrapper_generates_model_graph r2 ns es hg attach ana
+  obtain ⟨hn, he⟩ := MalVerif.C16.gen_reads_model _ _ (ns, es) hg
+  refine ⟨max F1 F2, fun k hk => ?_⟩
+  rw [hF1 k (by omega), hF2 k (by omega)]
+  simp only [show (inStore w s1).gstore = s1 from rfl, show (inStore w s2).gstore = s2 from rfl]
+  have e1 := postStages_heap (withFuel (inStore w s1) k) attach ana
+    { h := Py.Tie.genHeap (langOf lg) (instOf m) ns es (Py.Tie.resetG s1), lang_graph := lgAfter lg m, model := m }
+  have e2 := postStages_heap (withFuel (inStore w s2) k) attach ana
+    { h := Py.Tie.genHeap (langOf lg) (instOf m) ns es (Py.Tie.resetG s2), lang_graph := lgAfter lg m, model := m }
+  have hp := pipeline_doc_store_independent
+    (L := langOf lg) (m := instOf m) (ns := ns) (es := es) (s1 := Py.Tie.resetG s1) (s2 := Py.Tie.resetG s2)
+    ⟨ids_nodup r.modelOK, hn, he, (Py.Tie.resetG_reset _).fresh⟩
+    ⟨ids_nodup r.modelOK, hn, he, (Py.Tie.resetG_reset _).fresh⟩
+    (Py.Tie.resetG_reset _) (Py.Tie.resetG_reset _) (evalEnvOf (withFuel w k) (lgAfter lg m) m) attach ana
+  have henv1 : evalEnvOf (withFuel (inStore w s1) k) (lgAfter lg m) m = evalEnvOf (withFuel w k) (lgAfter lg m) m := rfl
+  have henv2 : evalEnvOf (withFuel (inStore w s2) k) (lgAfter lg m) m = evalEnvOf (withFuel w k) (lgAfter lg m) m := rfl
+  simp only [henv1] at e1
+  simp only [henv2] at e2
+  revert e1 e2 hp
+  generalize postStages (withFuel (inStore w s1) k) attach ana _ = x1
+  generalize postStages (withFuel (inStore w s2) k) attach ana _ = x2
+  generalize pipeline attach ana _ (Py.Tie.genHeap (langOf lg) (instOf m) ns es (Py.Tie.resetG s1)) = p1
+  generalize pipeline attach ana _ (Py.Tie.genHeap (langOf lg) (instOf m) ns es (Py.Tie.resetG s2)) = p2
+  intro hp e1 e2
+  cases x1 <;> cases x2 <;> cases p1 <;> cases p2 <;>
+    simp only [Except.map, liftGraph, Except.ok.injEq, Except.error.injEq, reduceCtorEq] at e1 e2 <;>
+    simp only [WD2.ERel] at hp
+  all_goals first
+    | exact hp.elim
+    | (subst e1; subst e2; exact hp)
+    | (subst e1; subst e2; rw [hp])
 
 /-- **(iii) inputs undisturbed**: for ANY flags, a run that returns `g` keeps, inside `g`, the model heap exactly as
 `load_from_file` returned it (the translated graph methods receive the model only as a read-only environment), so the
